@@ -551,6 +551,16 @@ RCP<const Basic> load_basic(Archive &ar, RCP<const Complex> &)
     ar(num, den);
     return Complex::from_two_nums(*num, *den);
 }
+template <class Archive>
+RCP<const Basic> load_basic(Archive &ar, RCP<const ComplexDouble> &)
+{
+    // Rebuild the value from its two parts directly: `re + I*im` evaluated
+    // with complex arithmetic turns an infinite or NaN imaginary part into a
+    // NaN real part and loses the sign of a zero real part.
+    RCP<const RealDouble> re, im;
+    ar(re, im);
+    return complex_double(std::complex<double>(re->i, im->i));
+}
 template <class Archive, class T>
 RCP<const Basic>
 load_basic(Archive &ar, RCP<const T> &,
